@@ -295,6 +295,8 @@ def read_vcf_text(path):
 def whatshap(args, overlay, trace=None, env_extra=None, timeout=600, cwd=None):
     """runs `python -m whatshap <args>` with the working-tree overlay first on the path.
     Returns (returncode, stdout, stderr, trace_records)"""
+    if not os.path.exists(os.path.join(overlay, "whatshap", "__init__.py")):
+        raise RuntimeError("overlay %s disappeared: refusing to fall back to the installed whatshap" % overlay)
     env = dict(os.environ)
     env["PYTHONPATH"] = overlay
     env.pop("WHATSHAP_VERIF_TRACE", None)
